@@ -832,4 +832,86 @@ Definition fd_expected (f : fdef) : list (string * ty) :=
            (sig_params (fd_self f) (fd_params f) (fd_args f))
   ++ match ret_anno (fd_ret f) (fd_yield f) with Some t => [("return", t)] | None => [] end.
 
+(* ------------------------------------------------------------------------------------------ *)
+(* token-level rendering: the expression the annotation text is meant to be, names already       *)
+(* relative to their import (`from m import Root` binds Root; nested classes are Root.Child)     *)
+(* ------------------------------------------------------------------------------------------ *)
+Definition cls_ast (c : cls) : aexpr :=
+  if N.eqb c cNone then AName ["None"] else AName (split_dot (cqual c)).
+
+(* repr route (below Type / Iterator / DefaultDict) *)
+Fixpoint rast_r (t : ty) : aexpr :=
+  match t with
+  | TAny => AName ["Any"]
+  | TCls c => cls_ast c
+  | TCallable => AName ["Callable"]
+  | TFwd n => AName ["ForwardRef"]                       (* ForwardRef('n'): never a valid annotation *)
+  | TTypedDict _ _ => AName ["monkeytype"; dummy_td_name]
+  | TType x => ASub ["Type"] [rast_r x]
+  | TList x => ASub ["List"] [rast_r x]
+  | TSet x => ASub ["Set"] [rast_r x]
+  | TIterator x => ASub ["Iterator"] [rast_r x]
+  | TDict k v => ASub ["Dict"] [rast_r k; rast_r v]
+  | TDefaultDict k v => ASub ["DefaultDict"] [rast_r k; rast_r v]
+  | TTuple ts => match ts with [] => ASub ["Tuple"] [AEmpty] | _ => ASub ["Tuple"] (map rast_r ts) end
+  | TTupleVar x => ASub ["Tuple"] [rast_r x; AEll]
+  | TGenerator a b c => ASub ["Generator"] [rast_r a; rast_r b; rast_r c]
+  | TUnion ts =>
+      match ts with
+      | [a; b] => if is_none_ty a then ASub ["Optional"] [rast_r b]
+                  else if is_none_ty b then ASub ["Optional"] [rast_r a]
+                  else ASub ["Union"] (map rast_r ts)
+      | _ => ASub ["Union"] (map rast_r ts)
+      end
+  end.
+
+(* structural route *)
+Fixpoint rast (t : ty) : aexpr :=
+  match t with
+  | TAny => AName ["Any"]
+  | TCls c => cls_ast c
+  | TCallable => AName ["Callable"]
+  | TFwd n => AStr n
+  | TTypedDict _ _ => AName ["?raise"]
+  | TType _ | TIterator _ | TDefaultDict _ _ => rast_r t
+  | TList x => ASub ["List"] [rast x]
+  | TSet x => ASub ["Set"] [rast x]
+  | TDict k v => ASub ["Dict"] [rast k; rast v]
+  | TTuple ts => match ts with [] => ASub ["Tuple"] [AEmpty] | _ => ASub ["Tuple"] (map rast ts) end
+  | TTupleVar x => ASub ["Tuple"] [rast x; AName ["Ellipsis"]]
+  | TGenerator a b c => ASub ["Generator"] [rast a; rast b; rast c]
+  | TUnion ts =>
+      if existsb is_none_ty ts then
+        let others := map snd (filter (fun p => negb (fst p)) (map (fun x => (is_none_ty x, rast x)) ts)) in
+        ASub ["Optional"] [match others with [x] => x | _ => ASub ["Union"] others end]
+      else ASub ["Union"] (map rast ts)
+  end.
+
+Fixpoint aexpr_eqb (a b : aexpr) : bool :=
+  let fix leq (xs ys : list aexpr) : bool :=
+      match xs, ys with
+      | [], [] => true
+      | x :: xs', y :: ys' => aexpr_eqb x y && leq xs' ys'
+      | _, _ => false end in
+  let seq := fix seq (xs ys : list string) : bool :=
+      match xs, ys with
+      | [], [] => true
+      | x :: xs', y :: ys' => String.eqb x y && seq xs' ys'
+      | _, _ => false end in
+  match a, b with
+  | AName p, AName q => seq p q
+  | AStr s, AStr s' => String.eqb s s'
+  | AEmpty, AEmpty => true
+  | AEll, AEll => true
+  | ASub p xs, ASub q ys => seq p q && leq xs ys
+  | _, _ => false
+  end.
+
+(* strip_is_tokenwise: the stripped annotation text parses back to the token-level rendering *)
+Definition tokenwise (mods : list string) (t : ty) : bool :=
+  match parse_anno (strip_mods mods (ra t)) with
+  | Some e => aexpr_eqb e (rast t)
+  | None => false
+  end.
+
 End Render.
